@@ -165,6 +165,16 @@ impl Prog {
                     })
                     .partition(|(_, var, _)| var.starts_with("Report."));
 
+                // register indices are u8 counters
+                if reports.len() > usize::from(u8::MAX) || controls.len() > usize::from(u8::MAX) {
+                    return Err(Error::from(format!(
+                        "too many variables: {} report, {} control (max {})",
+                        reports.len(),
+                        controls.len(),
+                        u8::MAX
+                    )));
+                }
+
                 for (is_volatile, var, typ) in reports {
                     scope.new_report(is_volatile, var, typ);
                 }
